@@ -8,6 +8,8 @@ for d in sorted(glob.glob(os.path.join(ROOT, "seeded", "*"))):
     if not os.path.isdir(d):
         continue
     sid = os.path.basename(d)
+    if sid.startswith("harmless"):
+        continue  # negative controls are described in the text of section 12
     m = json.load(open(os.path.join(d, "meta.json")))
     res = []
     for f in sorted(glob.glob(os.path.join(d, "run_*.out"))):
